@@ -99,7 +99,7 @@ func (x *Exec) eventMatches(ev *Event, c *ssa.CallCommon) bool {
 func (x *Exec) findContract(c *ssa.CallCommon) *FuncContract {
 	names := x.calleeNames(c)
 	if f, ok := c.Value.(*ssa.Function); ok {
-		if ctr := x.ck.contractOf(f); ctr != nil {
+		if ctr := x.ck.contractOf(f); ctr != nil && !ctr.Standalone {
 			return ctr
 		}
 	}
